@@ -307,6 +307,13 @@ func VerifSessionRelease() {
 		s.onRequest(verifReq(MethodSetup, "rtsp://h/live/a/trackID=0", "2", verifTransports[0], ""))
 		s.onRequest(verifReq(MethodPlay, "rtsp://h/live/a", "3", "", ""))
 		symapi.Assert(s.status == statusPlaying && src.ConsumerCount() == 1, "playing-reached")
+		if symapi.Bool("playRepeated") { // keep-alive PLAY while playing: still one consumer
+			s.onRequest(verifReq(MethodPlay, "rtsp://h/live/a", "9", "", ""))
+			symapi.Assert(src.ConsumerCount() == 1, "repeated-play-attaches-nothing-more")
+		}
+		if symapi.Bool("publisherReplaced") { // another publisher takes the path while this player is attached
+			media.Regist(media.NewStream("/live/a", verifSdp))
+		}
 	}
 	if symapi.Bool("teardown") {
 		s.onRequest(verifReq(MethodTeardown, "rtsp://h"+path, "4", "", ""))
@@ -318,7 +325,9 @@ func VerifSessionRelease() {
 		symapi.Assert(media.Get(path) == nil, "published-stream-unregistered")
 	} else {
 		symapi.Assert(src.ConsumerCount() == 0, "consumer-detached")
-		symapi.Assert(media.Get("/live/a") == src, "source-stream-untouched")
+		if cur := media.Get("/live/a"); cur != src { // replaced: the successor is not affected by this player leaving
+			symapi.Assert(cur != nil && cur.ConsumerCount() == 0, "successor-stream-untouched")
+		}
 	}
 	symapi.Assert(s.status == statusInit && s.consumer == defaultConsumer && s.stream == defaultStream, "session-reset")
 	symapi.Reach("end")
